@@ -98,4 +98,58 @@ theorem old_show_disagrees :
     showTarget true m "b" = some root ∧ runTarget m "b" = some sub := by
   decide
 
+/-! ### what is displayed is what was declared -/
+
+/-- **documentation**: the `[doc(…)]` attribute's value if there is one, nothing under a bare `[doc]`
+(which hides the comment), else the comment above the recipe -/
+theorem doc_displayed_is_declared (d : Decl) :
+    (∀ x, d.docAttr = some (some x) → d.doc = some x) ∧
+    (d.docAttr = some none → d.doc = none) ∧
+    (d.docAttr = none → d.doc = d.comment) := by
+  refine ⟨?_, ?_, ?_⟩ <;> intro h <;> simp_all [Decl.doc]
+
+/-- **every entry of a recipe shows the declared name, parameters, documentation and aliases**, a
+public recipe is listed once under each of its groups (once without heading if it has none), a
+private one not at all -/
+theorem entries_are_declared (as : List AliasOf) (d : Decl) :
+    (∀ e ∈ entriesOf as d, e.signature = joinSp (d.name :: d.params) ∧ e.doc = d.doc ∧
+      e.aliases = aliasesFor as d) ∧
+    (d.isPrivate = true → entriesOf as d = []) ∧
+    (d.isPrivate = false → (entriesOf as d).map Entry.heading =
+      (if d.groups = [] then [none] else d.groups.map some)) := by
+  refine ⟨?_, ?_, ?_⟩
+  · intro e he
+    unfold entriesOf at he
+    split at he
+    · cases he
+    · split at he
+      · simp at he; subst he; exact ⟨rfl, rfl, rfl⟩
+      · simp only [List.mem_map] at he
+        obtain ⟨g, _, rfl⟩ := he
+        exact ⟨rfl, rfl, rfl⟩
+  · intro h; simp [entriesOf, h]
+  · intro h
+    unfold entriesOf
+    simp only [h, Bool.false_eq_true, if_false]
+    split
+    · rename_i hg; simp [hg]
+    · rename_i hg
+      have : d.groups ≠ [] := fun h => hg h
+      simp [this, List.map_map, Function.comp_def]
+
+/-- **alias annotations**: exactly the public aliases whose target is this recipe of this module -/
+theorem alias_annotation_iff (as : List AliasOf) (d : Decl) (n : String) :
+    n ∈ aliasesFor as d ↔ ∃ a ∈ as, a.name = n ∧ a.isPrivate = false ∧ a.targetHere = true ∧ a.targetName = d.name := by
+  unfold aliasesFor
+  simp only [List.mem_map, List.mem_filter, Bool.and_eq_true, Bool.not_eq_true', decide_eq_true_eq]
+  constructor
+  · rintro ⟨a, ⟨ha, ⟨h1, h2⟩, h3⟩, rfl⟩; exact ⟨a, ha, rfl, h1, h2, h3⟩
+  · rintro ⟨a, ha, rfl, h1, h2, h3⟩; exact ⟨a, ⟨ha, ⟨h1, h2⟩, h3⟩, rfl⟩
+
+/-- non-vacuity: a documented recipe in two groups with a public and a private alias -/
+example : entriesOf [⟨"b", false, "build", true⟩, ⟨"_b", true, "build", true⟩]
+    ⟨"build", ["target", "*rest"], some "comment", some (some "attr"), ["g1", "g2"], false⟩ =
+    [⟨some "g1", "build target *rest", some "attr", ["b"]⟩, ⟨some "g2", "build target *rest", some "attr", ["b"]⟩] := by
+  decide
+
 end Just.Props.C17
